@@ -2,6 +2,7 @@ import NitroVerif.Lemmas.CheckTsValue
 import NitroVerif.Lemmas.CheckTsRec
 import NitroVerif.Lemmas.CheckTsUnique
 import NitroVerif.Lemmas.CheckTsRecSpec
+import NitroVerif.Lemmas.CheckTsPreE3584a3
 /-!
 # C05 — schema `check` verdict is exact on the implemented type-system rules
 
@@ -498,6 +499,73 @@ def duplicateArgSchema : TsDoc :=
     accepted unseen) -/
 theorem C05_duplicate_argument_reported :
     checkSchema duplicateArgSchema = [(.DuplicatedName, { line := 1 })] := by decide
+
+/-! ### Int arguments of directive applications are 32-bit values (spec §3.5.1; fix e3584a3) -/
+
+/-- In an accepted document an integer literal given (at the top level of the argument value) for a directive argument
+    whose innermost named type is `Int` denotes a value in `[-2^31, 2^31)` (spec §3.5.1 "Input Coercion" of `Int`; the
+    checker tests `parse::<i32>` since fix e3584a3). Nested positions (list items, input-object fields) are covered by
+    `C05_sound_directiveArgs`, whose `valueOk` recurses with the same leaf test. -/
+theorem C05_directive_int_args_in_range (T : TsDoc) (h : checkSchema T = []) :
+    ∀ s ∈ dirSites T, ∀ d ∈ s.2, ∀ df, (Schema.mk T).directiveDef? d.name = some df →
+      ∀ a ∈ d.args, ∀ ad, df.args.find? (·.name == a.1) = some ad → ad.ty.unwrapped = "Int" →
+        ∀ t p, a.2.2 = .int t p →
+          ∃ i : Int, SpecInt.intValue? t.toList = some i ∧ -2147483648 ≤ i ∧ i ≤ 2147483647 := by
+  intro s hs d hd df hdf a ha ad had hty t p hv
+  have H := C05_sound_directiveArgs T h
+  simp only [Holds_directiveArgs, directiveArgs, List.all_eq_true] at H
+  have := H s hs d hd
+  rw [hdf] at this
+  simp only [directiveArgsOk, Bool.and_eq_true, List.all_eq_true] at this
+  have hva := this.1 a ha
+  rw [had, hv] at hva
+  simp only [valueOk, leafOk, hty] at hva
+  have hr : SpecInt.intTextInRange t = true := by
+    cases ht : (Schema.mk T).typeDef? "Int" with
+    | none => simp [ht] at hva
+    | some td =>
+      simp only [ht] at hva
+      cases hk : td.kind <;> simp [hk, scalarLeafOk] at hva
+      exact hva
+  exact (IntLit.intLiteralFitsI32_iff t).mp (by rw [IntLit.intLiteralFitsI32_eq]; exact hr)
+
+/-- `directive @d(n: Int, l: [Int], fl: Float, id: ID) on OBJECT   type Query @d(n: <n>, l: [<l>], fl: 4294967296, id: 12345678901234567890) { f: Int }`
+    (the literal for `n` at line 1, column 5; the one inside `l` at line 2, column 7) -/
+def intRangeSchema (n l : String) : TsDoc :=
+  [.typeDef { kind := .scalar, name := "Int" }, .typeDef { kind := .scalar, name := "Float" },
+   .typeDef { kind := .scalar, name := "ID" },
+   .directiveDef { name := "d", locations := ["OBJECT"],
+                   args := [{ name := "n", ty := .named "Int" {} }, { name := "l", ty := .list (.named "Int" {}) {} },
+                            { name := "fl", ty := .named "Float" {} }, { name := "id", ty := .named "ID" {} }] },
+   .typeDef { kind := .object, name := "Query",
+              dirs := [{ name := "d", args := [("n", {}, .int n { line := 1, col := 5 }),
+                                               ("l", {}, .list [.int l { line := 2, col := 7 }] {}),
+                                               ("fl", {}, .int "4294967296" {}), ("id", {}, .int "12345678901234567890" {})] }],
+              fields := [{ name := "f", ty := .named "Int" {} }] }]
+
+/-- non-vacuity of `C05_directive_int_args_in_range`: an accepted schema with the boundary values at Int positions and
+    integers beyond 32 bits at Float / ID positions -/
+example : checkSchema (intRangeSchema "2147483647" "-2147483648") = [] ∧
+    directiveArgs (intRangeSchema "2147483647" "-2147483648") = true := by decide +kernel
+
+/-- an out-of-range Int argument of a directive application is reported (`TypeMismatch` at the literal), at the top
+    level of the argument and inside a list; the specification's rule agrees -/
+theorem C05_int_range_reported :
+    checkSchema (intRangeSchema "4294967296" "0") = [(.TypeMismatch, { line := 1, col := 5 })] ∧
+    checkSchema (intRangeSchema "-0" "-2147483649") = [(.TypeMismatch, { line := 2, col := 7 })] ∧
+    checkSchema (intRangeSchema "2147483648" "0") = [(.TypeMismatch, { line := 1, col := 5 })] ∧
+    directiveArgs (intRangeSchema "4294967296" "0") = false ∧ directiveArgs (intRangeSchema "-0" "-2147483649") = false := by
+  decide +kernel
+
+/-- PRE-REPAIR witness (before fix e3584a3): the checker as it was (`PreE3584a3.CheckTs.checkSchema`, Int arm
+    `matches!(value, IntValue(_) | NullValue(_))`) accepted `@d(n: 4294967296)` with `n: Int` although the
+    specification's rule for directive arguments (`directiveArgs`: values coercible to the argument's type, §3.5.1) is
+    violated — `accepted → Holds_directiveArgs` was FALSE of that code against the specification as it is now written. -/
+theorem C05_int_range_prerepair_witness :
+    PreE3584a3.CheckTs.checkSchema (intRangeSchema "4294967296" "0") = [] ∧
+    PreE3584a3.CheckTs.checkSchema (intRangeSchema "-0" "-2147483649") = [] ∧
+    ¬ Holds_directiveArgs (intRangeSchema "4294967296" "0") ∧ ¬ Holds_directiveArgs (intRangeSchema "-0" "-2147483649") := by
+  unfold Holds_directiveArgs; decide +kernel
 
 /-! ## recursive directive definitions -/
 
